@@ -1268,6 +1268,16 @@ package pongo2
 // (nil only to an interface-typed parameter): that is reflect's panic condition for Call, checked here per argument
 //@ extern reflect.TypeOf(i) (r0)
 //@   pure as TypeOfIface
+// every argument handed to Call is assignable to the parameter it is passed for: the evaluated value itself when
+// argumentFits said so, the zero value of the parameter's type for nil, the *Value itself for a *Value parameter
+// (typeOfValuePtr is reflect.TypeOf(new(Value)), ASSUMED)
+//@ extern reflect.Zero(typ) (r0)
+//@   ensures RVType(r0) == typ && RVKind(r0) != 0 && RVCanInterface(r0)
+//@ extern reflect.ValueOf(i) (r0)
+//@   ensures i != nil ==> RVType(r0) == TypeOfIface(i)
+//@   ensures typeis(i, "*Value") ==> RVType(r0) == typeOfValuePtr
+//@ func (*variableResolver).resolve
+//@   at append[reflect.Value] requires {C01,C08} @each-argument-is-assignable-to-its-parameter TypeAssignable(RVType(elem), fnArg)
 //@ func argumentFits
 //@   requires {C01,C08} @a-parameter-type fnArg != nil
 //@   ensures {C01,C08} @fits-means-assignable-to-the-parameter r0 ==> ((TypeOfIface(VInterface(pv)) == nil && TypeKind(fnArg) == 20) || (TypeOfIface(VInterface(pv)) != nil && TypeAssignable(TypeOfIface(VInterface(pv)), fnArg)))
@@ -1492,3 +1502,11 @@ package pongo2
 //@ func tagIfParser
 //@   invariant 0 {C01} @document-position-moves-forward-only doc.idx >= old(doc.idx) && 0 <= doc.idx && doc.idx <= len(doc.tokens)
 //@   decreases 0 {C01} @every-branch-consumes-document-tokens len(doc.tokens) - doc.idx
+// remaining loops with a termination argument of their own (C01)
+//@ func filterEscapejs
+//@   decreases 0 {C01} @every-round-consumes-input len(sin) - idx
+//@ func (*Value).IterateOrder
+//@   decreases 2 {C01} @mirrors-half-of-the-items itemCount / 2 - i
+//@ func (*Template).ExecuteBlocks
+//@   invariant 0 {C01} @walks-up parent == nil || parent == tpl || (parent.child != nil && tpl.parent != nil)
+//@   decreases 0 {C01} @towards-the-root ite(parent == nil, 0, old(now) - birth(parent) + 1)
